@@ -125,7 +125,7 @@ def skeleton(key, wlen=1, alpha='aB9.*'):
     return ob3 if '{w3}' in templ else (ob2 if '{w2}' in templ else ob1)
 
 
-LONG_PIECES = ['.', '*', '(', 'x']
+LONG_PIECES = ['.', '*', '(', 'x', chr(92)]
 SEPS = [' ', '  ', '\t', '   ', ' \t ']
 
 
@@ -134,12 +134,12 @@ def long_token(first=True):
     symbolic indices, so a length limit anywhere in the suggestion code (whatever its value up to 40) meets a metacharacter on it."""
     def ob(n: int, pi: int) -> bool:
         """
-        pre: 0 <= n <= 40 and 0 <= pi < 4
+        pre: 0 <= n <= 40 and 0 <= pi < 5
         post: _
         """
         from engine.ob import pick
         reset_tally_caches()
-        n, pi = pick(n, 41), pick(pi, 4)
+        n, pi = pick(n, 41), pick(pi, 5)
         word = 'W' * n + LONG_PIECES[pi] + 'ACMECO' + LONG_PIECES[pi] + 'COM'
         desc = (word + ' PAYMENT REF') if first else ('ONLINE ' + word + ' REF')
         return post(_check(desc))
